@@ -35,19 +35,24 @@ def seeded():
         r = res.get(name, {})
         caught = [c for c, v in (r.get("checks") or {}).items() if (v or {}).get("exit") == 1]
         note = (m.get("confirmed_by_coordinator", {}).get("check_result") or "")
+        # a change saved after the last full re-run has no RESULTS entry: what the coordinator observed when it was saved counts
+        when_saved = ""
+        if not r and "VIOLATION" in note:
+            cs = re.findall(r"\./check (C\d\d)[^;]*?VIOLATION", note)
+            when_saved = ", ".join("./check %s" % c for c in dict.fromkeys(cs)) + " (when saved)"
         if m.get("obsolete"):
             rows.append("| %s | %s | | no longer a violation | %s |" % (name, (m.get("summary") or "")[:200].replace("\n", " ").replace("|", "/"), m["obsolete"][:260].replace("|", "/")))
             continue
-        first_missed = "first missed" in note
+        first_missed = "first missed" in note or "MISSED at intake" in note or "MISSED AT FIRST" in note
         rows.append("| %s | %s | %s | %s | %s |" % (name, (m.get("summary") or "")[:200].replace("\n", " ").replace("|", "/"),
                                                   (m.get("needs") or "")[:160].replace("\n", " ").replace("|", "/") if isinstance(m.get("needs"), str) else "",
-                                                  ", ".join("./check %s" % c for c in caught) or "NOT CAUGHT",
+                                                  ", ".join("./check %s" % c for c in caught) or when_saved or "NOT CAUGHT",
                                                   ("missed at first; " + note.split(";", 1)[1].strip()[:160] if first_missed and ";" in note else ("missed at first, check strengthened" if first_missed else ""))))
     n = len(rows)
     n -= sum(1 for r in rows if "no longer a violation" in r)
     nc = sum(1 for r in rows if "NOT CAUGHT" not in r and "no longer a violation" not in r)
     return ("| change | what it does | needs | caught by (last full re-run) | note |\n|---|---|---|---|---|\n" + "\n".join(rows) +
-            "\n\n%d seeded changes kept, %d caught by the checks on the last full re-run (tools/seedall.py, seeded/RESULTS.json).\n" % (n, nc))
+            "\n\n%d seeded changes kept, %d caught by the checks (last full re-run by tools/seedall.py, seeded/RESULTS.json; for changes saved after it: the run made when the change was saved). Changes still missed are kept under seeded/pending/.\n" % (n, nc))
 
 
 def findings():
